@@ -59,6 +59,17 @@ func (w *vWorld) checkIndex(c *Collection, index string, oracle func(vCell) bool
 		})
 	})
 	vndAssert(!extra, what+": the index selects a row that does not exist")
+	// the index itself holds no bit outside the live rows: With() masks such a bit with the fill
+	// list, Union() does not, and it comes back as a match when the offset is reused
+	stale := false
+	c.Query(func(txn *Txn) error {
+		return txn.Without(index).Union(index).Range(func(idx uint32) {
+			if s := w.slotOf(idx); s < 0 || !w.live[s] {
+				stale = true
+			}
+		})
+	})
+	vndAssert(!stale, what+": the index keeps a bit for a row that is not live")
 	for i := 0; i < w.n; i++ {
 		want := w.live[i] && w.a[i].has && oracle(w.a[i])
 		vndAssert(sel[i] == want, what+": With(index) differs from the predicate over the current value")
